@@ -763,7 +763,7 @@ fn read_while(cur: &mut SourceCursor, song: &mut Song) -> Token {
     }
     let cond_s = cur.get_token_nest('(', ')');
     let cond_tok = lex_calc(song, &cond_s, lineno);
-    cur.skip_space();
+    cur.skip_space_ret(); // the '{' may stand on a later line
     // read body
     let body_lineno = cur.line; // the block starts on this line
     let body_s = cur.get_token_nest('{', '}');
@@ -788,7 +788,7 @@ fn read_for(cur: &mut SourceCursor, song: &mut Song) -> Token {
     let init_s = cur.get_token_ch(';').trim().to_string();
     let cond_s = cur.get_token_ch(';');
     let inc_s = cur.get_token_ch(')');
-    cur.skip_space();
+    cur.skip_space_ret(); // the '{' may stand on a later line
     if !cur.eq_char('{') {
         read_error_cmd(cur, song, "FOR");
         return Token::new_empty("ERROR:FOR", cur.line);
@@ -824,7 +824,7 @@ fn read_if(cur: &mut SourceCursor, song: &mut Song) -> Token {
     }
     let cond = cur.get_token_nest('(', ')');
     let cond_tok = lex_calc(song, &cond, cur.line);
-    cur.skip_space();
+    cur.skip_space_ret(); // the '{' may stand on a later line
     if !cur.eq_char('{') {
         read_error_cmd(cur, song, "IF");
         return Token::new_empty("ERROR:IF", cur.line);
@@ -839,7 +839,7 @@ fn read_if(cur: &mut SourceCursor, song: &mut Song) -> Token {
     if cur.eq("ELSE") || cur.eq("Else") {
         let else_lineno = cur.line;
         cur.next_n(4); // skip "ELSE"
-        cur.skip_space();
+        cur.skip_space_ret(); // the '{' may stand on a later line
         if !cur.eq_char('{') {
             read_error_cmd(cur, song, "IF");
             return Token::new_empty("ERROR:IF:ELSE", else_lineno);
